@@ -1189,6 +1189,7 @@ impl<R: HRole> Runner<R> {
                 self.last_events.clear();
             }
             Ok((evs, ret)) => {
+                let mark = rec.len();
                 rec.push(0);
                 enc_events(&evs, &mut rec);
                 for e in &evs {
@@ -1207,8 +1208,19 @@ impl<R: HRole> Runner<R> {
                 if let Op::Acquire = op {
                     self.last_acquired = ret.first().copied();
                 }
-                digest(self.conn.as_ref().unwrap(), &mut rec);
-                self.last_events = evs;
+                // the state digest reads public getters too: a getter that panics counts as a panic of this call
+                let mut dg: Vec<u64> = Vec::new();
+                let conn_ref = self.conn.as_ref().unwrap();
+                if catch_unwind(AssertUnwindSafe(|| digest(conn_ref, &mut dg))).is_ok() {
+                    rec.extend_from_slice(&dg);
+                    self.last_events = evs;
+                } else {
+                    st.panics += 1;
+                    rec.truncate(mark);
+                    rec.push(1);
+                    self.dead = true;
+                    self.last_events.clear();
+                }
             }
         }
         if let Op::Closed = op {
